@@ -129,6 +129,24 @@ Section Eqs.
       end.
   Proof. reflexivity. Qed.
 
+  (* ---- `if` with the choice of the branch kept folded until the test is decided (symbolic execution stops there) ---- *)
+  Definition branch (t:res bool) (th el:list stmt) (s:state) : res (ctl Ob) * state :=
+    match t with
+    | ROk true => exec_list th s
+    | ROk false => exec_list el s
+    | RExc c => (RExc c, s) | RFail f => (RFail f, s)
+    end.
+  Lemma exec_if_branch c th el (s:state) :
+    exec (SIf c th el) s =
+      match eval c s with
+      | (ROk v, s1) => branch (truth Ob v) th el s1
+      | (RExc c, s1) => (RExc c, s1) | (RFail f, s1) => (RFail f, s1) end.
+  Proof. reflexivity. Qed.
+  Lemma branch_true th el (s:state) : branch (ROk true) th el s = exec_list th s.
+  Proof. reflexivity. Qed.
+  Lemma branch_false th el (s:state) : branch (ROk false) th el s = exec_list el s.
+  Proof. reflexivity. Qed.
+
   (* ---- a `for` loop whose body takes states of a given shape to states of that shape ---- *)
   Lemma floop_shape (A:Type) (shape : A -> val Ob -> state) (step : A -> val Ob -> A) bind body :
     (forall a u v, match bind v (shape a u) with
@@ -579,3 +597,384 @@ Lemma seq_bound s n : Forall (fun i => (i < s + n)%nat) (seq s n).
 Proof. apply Forall_forall. intros i H. apply in_seq in H. lia. Qed.
 Lemma map_snoc {A B} (f:A -> B) l x : (map f l ++ [f x])%list = map f (l ++ [x]).
 Proof. now rewrite map_app. Qed.
+
+(* ================= the nested loop of _getsatcellmaps as a fold ================= *)
+Section HitFold.
+  Variable tb : Z -> bool.
+  Definition hit_step (st:nat * list (string*string)) (p:string*string) : nat * list (string*string) :=
+    (S (fst st), if tb (Z.of_nat (fst st) + 1) then (snd st ++ [p])%list else snd st).
+  Lemma fold_left_map' {A B C} (f:C -> B -> C) (g:A -> B) l c : fold_left f (map g l) c = fold_left (fun c x => f c (g x)) l c.
+  Proof. revert c. induction l as [|x r IH]; intro c; [reflexivity|]. cbn [map fold_left]. apply IH. Qed.
+  Lemma hit_fold_fst {X} (g:X -> string*string) l st : fst (fold_left (fun st x => hit_step st (g x)) l st) = (fst st + List.length l)%nat.
+  Proof.
+    revert st. induction l as [|x r IH]; intro st; cbn [fold_left List.length]; [lia|].
+    rewrite IH. cbn [hit_step fst]. lia.
+  Qed.
+  Lemma hit_fold_nested (sl sg:list string) st :
+    fold_left (fun st k => fold_left (fun st j => hit_step st (nth k sl "", nth j sg "")) (seq 0 (List.length sg)) st) (seq 0 (List.length sl)) st
+    = fold_left hit_step (gsm_pairs sl sg) st.
+  Proof.
+    unfold gsm_pairs. rewrite fold_flat_map.
+    rewrite <- (fold_seq_nth (fun st s => fold_left hit_step (map (fun g => (s, g)) sg) st) "" sl).
+    apply fold_left_ext_in. intros st' k _.
+    rewrite fold_left_map'. apply (fold_seq_nth (fun st g => hit_step st (nth k sl "", g)) "" sg).
+  Qed.
+End HitFold.
+Lemma gsm_loop3_fold (sl sg:list string) (c:Z) :
+  let tb := fun x => Z.testbit c (Z.of_nat (List.length sl) * Z.of_nat (List.length sg) - x) in
+  fold_left (fun st k => fold_left (fun st j => hit_step tb st (nth k sl "", nth j sg "")) (seq 0 (List.length sg)) st) (seq 0 (List.length sl)) (0%nat, [])
+  = ((List.length sl * List.length sg)%nat, gsm_hits sl sg c).
+Proof.
+  intro tb. rewrite hit_fold_nested. unfold hit_step. rewrite (fold_hits tb). cbn [app Nat.add].
+  rewrite gsm_pairs_length. reflexivity.
+Qed.
+
+Lemma dict_set_cell (l:list (string*string)) x y :
+  dict_set dob (PyO.VInt (Z.of_nat (List.length l) + 1)) (VTuple [PyO.VStr x; PyO.VStr y])
+    (map (fun kv : Z * (string * string) => (PyO.VInt (fst kv), VTuple [PyO.VStr (fst (snd kv)); PyO.VStr (snd (snd kv))])) (number l))
+  = Some (map (fun kv : Z * (string * string) => (PyO.VInt (fst kv), VTuple [PyO.VStr (fst (snd kv)); PyO.VStr (snd (snd kv))])) (number (l ++ [(x, y)]))).
+Proof. exact (dict_set_number (string*string) (fun p => VTuple [PyO.VStr (fst p); PyO.VStr (snd p)]) l (x, y)). Qed.
+
+(* a data attribute of the model, read in a related store *)
+Lemma store_rel_attr a o n : store_rel a o -> existsb (String.eqb n) fixed_names = false ->
+  match assoc n (o_attrs o) with
+  | None => lookup dob n a = None
+  | Some (Types.VInt z) => lookup dob n a = Some (PyO.VInt z)
+  | Some (Types.VFloat f) => lookup dob n a = Some (PyO.VFloat f)
+  | Some (Types.VStr s) => (exists t, s = codes t /\ lookup dob n a = Some (PyO.VStr t)) \/ lookup dob n a = Some (PyO.VUStr s)
+  end.
+Proof.
+  intros SR Hn. pose proof (store_rel_lookup a o n SR Hn) as R. unfold look_rel in R.
+  destruct (lookup dob n a) as [v|], (assoc n (o_attrs o)) as [mv|]; try contradiction; [|reflexivity].
+  inversion R; subst; try reflexivity; [left; eauto|right; reflexivity].
+Qed.
+
+(* s[0:k] *)
+Lemma slice_str_0_to t (k:nat) : slice_str t (Some 0) (Some (Z.of_nat k)) = substring 0 k t.
+Proof.
+  unfold slice_str, clamp. change (0 <? 0) with false. cbv iota. rewrite of_nat_ltb0, Nat2Z.id.
+  change (Z.to_nat 0) with 0%nat. rewrite Nat.min_0_l, Nat.sub_0_r. apply substring_min.
+Qed.
+
+(* no mask attribute holds a str (a str made by chr() shifted by an int is not spelled out in PyO: RFail, where CPython raises TypeError) *)
+Definition masks_plain (o:obj) : Prop :=
+  forall k, In k ["DF394"; "DF395"; "DF396"] -> forall s, assoc k (o_attrs o) <> Some (Types.VStr s).
+
+(* ================= Model.set_single in named pieces, the _getsatcellmaps call a parameter ================= *)
+Section SingleGen.
+  Variable T : tables.
+  Definition single_asiz (anam:string) (fd:dfield) (o:obj) : outcome Z :=
+    if String.eqb anam "DF396"
+    then (do a <- getint o (t_nsat T); do b <- getint o (t_nsig T); Ok (a*b)%Z)
+    else Ok (df_bits fd).
+  Definition single_value (fd:dfield) (asiz:Z) (index:list Z) (o:obj) (offset:Z) : outcome (value * option N) :=
+    match df_ty fd with
+    | TPRN => do i <- first_index index;
+              match o_satmap o with None => Foreign XType | Some m =>
+                match zassoc i m with Some x => Ok (Types.VStr (codes x), None) | None => Foreign XKey end end
+    | TCPR => do i <- first_index index;
+              match o_cellmap o with None => Foreign XType | Some m =>
+                match zassoc i m with Some x => Ok (Types.VStr (codes (fst x)), None) | None => Foreign XKey end end
+    | TCSG => do i <- first_index index;
+              match o_cellmap o with None => Foreign XType | Some m =>
+                match zassoc i m with Some x => Ok (Types.VStr (codes (snd x)), None) | None => Foreign XKey end end
+    | _ =>
+      do bits <- get_bits (o_payloadi o) (8 * Z.of_nat (List.length (o_payload o)))%Z offset asiz;
+      let zb := Z.of_N bits in
+      match df_ty fd with
+      | TSNT =>
+          if (asiz <? 1)%Z then Foreign XValue else
+          let msb := (2^(asiz-1))%Z in
+          let mag := Z.land zb (msb - 1) in
+          let val := if (Z.land zb msb =? 0)%Z then mag else (- mag)%Z in
+          do v <- scale val (df_res fd); Ok (v, Some bits)
+      | TINT =>
+          if (asiz <? 1)%Z then Foreign XValue else
+          let msb := (2^(asiz-1))%Z in
+          let val := if (Z.land zb msb =? 0)%Z then zb else (zb - 2^asiz)%Z in
+          do v <- scale val (df_res fd); Ok (v, Some bits)
+      | TCHA =>
+          if (1114112 <=? bits)%N then Foreign XValue
+          else if res_is_unit (df_res fd) then Ok (Types.VStr [bits], Some bits)
+          else Unmodelled "scaled CHA"
+      | TSTR =>
+          if (bits =? 0)%N then Ok (Types.VStr [], Some bits)
+          else if (1114112 <=? bits)%N then Foreign XValue else Ok (Types.VStr [bits], Some bits)
+      | _ => do v <- scale zb (df_res fd); Ok (v, Some bits)
+      end
+    end.
+  Definition single_store (fd:dfield) (anam anami:string) (val:value) (o:obj) : outcome obj :=
+    match df_ty fd with
+    | TSTR =>
+        match assoc anam (o_attrs o), val with
+        | None, _ => Message.setattr o anam val
+        | Some (Types.VStr old), Types.VStr new => Message.setattr o anam (Types.VStr (old ++ new)%list)
+        | Some _, _ => Foreign XType
+        end
+    | _ => Message.setattr o anami val
+    end.
+  Definition single_extras (gsm:obj -> outcome obj) (anam:string) (obits:option N) (o1:obj) : outcome obj :=
+    if String.eqb anam "DF394" || String.eqb anam "DF395" || String.eqb anam "DF396" then
+      match obits with
+      | None => Foreign XOther
+      | Some bits =>
+          let nb := Types.VInt (popcount bits) in
+          if String.eqb anam "DF394" then Message.setattr o1 (t_nsat T) nb
+          else if String.eqb anam "DF395" then Message.setattr o1 (t_nsig T) nb
+          else do o' <- Message.setattr o1 (t_ncell T) nb; gsm o'
+      end
+    else Ok o1.
+  Definition single_harm (anam:string) (index:list Z) (o2:obj) : outcome obj :=
+    if String.eqb anam "IDF038" then
+      do i <- first_index index;
+      if (i <? 0)%Z then Foreign XValue else
+      do n0 <- getint o2 ("IDF037_" ++ dd (Z.to_N i));
+      do m0 <- getint o2 ("IDF038_" ++ dd (Z.to_N i));
+      let N' := (n0 + 1)%Z in let M' := (m0 + 1)%Z in
+      if (2^24 <? Z.abs N')%Z || (2^24 <? Z.abs M')%Z then Unmodelled "harmonic degree beyond exact float range" else
+      let nc := (((N' + 1) * (N' + 2)) / 2 - ((N' - M') * (N' - M' + 1)) / 2)%Z in
+      let ns := (nc - (N' + 1))%Z in
+      do o' <- Message.setattr o2 (t_nharmc T) (Types.VInt nc); Message.setattr o' (t_nharms T) (Types.VInt ns)
+    else Ok o2.
+  Definition set_single_gen (gsm:obj -> outcome obj) (anam:string) (index:list Z) (s:obj*Z) : outcome (obj*Z) :=
+    let '(o, offset) := s in
+    match find_field T anam with
+    | None => Foreign XKey
+    | Some fd =>
+        do asiz <- single_asiz anam fd o;
+        do vb <- single_value fd asiz index o offset;
+        do o1 <- single_store fd anam (render_name anam index) (fst vb) o;
+        do o2 <- single_extras gsm anam (snd vb) o1;
+        do o3 <- single_harm anam index o2;
+        Ok (o3, (offset + asiz)%Z)
+    end.
+  Lemma set_single_gen_eq ident anam index s :
+    set_single T ident anam index s = set_single_gen (getsatcellmaps T ident) anam index s.
+  Proof.
+    destruct s as [o offset]. unfold set_single, set_single_gen.
+    destruct (find_field T anam) as [fd|]; [|reflexivity].
+    unfold single_asiz. destruct (if String.eqb anam "DF396" then _ else _) as [asiz| | |]; cbn [obind]; [|reflexivity..].
+    unfold single_value. destruct (match df_ty fd with TPRN => _ | _ => _ end) as [[val obits]| | |]; cbn [obind fst snd]; reflexivity.
+  Qed.
+End SingleGen.
+
+(* ================= values of _set_attribute_single ================= *)
+Lemma of_N_ones k : Z.ones (Z.of_N k) = Z.of_N (N.ones k).
+Proof.
+  rewrite Z.ones_equiv, N.ones_equiv, N2Z.inj_pred, N2Z.inj_pow; [reflexivity|].
+  apply N.neq_0_lt_0, N.pow_nonzero. discriminate.
+Qed.
+(* payloadi >> sh & ((1 << asiz) - 1) *)
+Lemma bits_Z p sh asiz : 0 <= sh -> 0 <= asiz ->
+  Z.land (Z.shiftr (Z.of_N p) sh) (Z.shiftl 1 asiz - 1) = Z.of_N (N.land (N.shiftr p (Z.to_N sh)) (N.ones (Z.to_N asiz))).
+Proof.
+  intros H1 H2. change (Z.shiftl 1 asiz - 1) with (Z.ones asiz).
+  rewrite <- (Z2N.id sh H1) at 1. rewrite <- (Z2N.id asiz H2) at 1.
+  now rewrite MiniPyLemmas.of_N_shiftr, of_N_ones, MiniPyLemmas.of_N_land.
+Qed.
+Lemma get_bits_eq p L off w :
+  get_bits p L off w = if (L - off - w <? 0) || (w <? 0) then Foreign XValue
+                       else Ok (N.land (N.shiftr p (Z.to_N (L - off - w))) (N.ones (Z.to_N w))).
+Proof. reflexivity. Qed.
+Lemma shl1 n : 0 <= n -> Z.shiftl 1 n = 2 ^ n.
+Proof. intro H. rewrite Z.shiftl_mul_pow2 by exact H. apply Z.mul_1_l. Qed.
+Lemma sub1_ltb w : (w - 1 <? 0) = (w <? 1).
+Proof. destruct (Z.ltb_spec (w - 1) 0), (Z.ltb_spec w 1); try reflexivity; lia. Qed.
+Lemma mem01_int z : mem_val dob (PyO.VInt z) [PyO.VInt 0; PyO.VInt 1] = Some ((z =? 0) || (z =? 1)).
+Proof.
+  cbn [mem_val eq_val]. rewrite (Z.eqb_sym 0 z), (Z.eqb_sym 1 z). destruct (z =? 0); [reflexivity|]. destruct (z =? 1); reflexivity.
+Qed.
+Lemma float_of_Z_0 : float_of_Z 0 = 0%float. Proof. reflexivity. Qed.
+Lemma float_of_Z_1 : float_of_Z 1 = 1%float. Proof. reflexivity. Qed.
+Lemma mem01_float f : mem_val dob (PyO.VFloat f) [PyO.VInt 0; PyO.VInt 1] = Some ((f =? 0) || (f =? 1))%float.
+Proof.
+  cbn [mem_val eq_val]. change (Z.abs 0 <? 2 ^ 53) with true. change (Z.abs 1 <? 2 ^ 53) with true. cbv iota.
+  rewrite float_of_Z_0, float_of_Z_1. destruct (f =? 0)%float; [reflexivity|]. destruct (f =? 1)%float; reflexivity.
+Qed.
+Lemma codes_app x y : codes (x ++ y) = (codes x ++ codes y)%list.
+Proof. unfold codes. induction x as [|c x IH]; [reflexivity|]. cbn [append list_ascii_of_string map app]. now rewrite IH. Qed.
+Lemma popcount_bits b : popcount (Z.to_N (Z.abs (Z.of_N b))) = popcount b.
+Proof. rewrite Z.abs_eq by lia. now rewrite N2Z.id. Qed.
+Lemma chr_ok (b:N) : (0 <=? Z.of_N b) && (Z.of_N b <? 1114112) = negb (1114112 <=? b)%N.
+Proof.
+  replace (0 <=? Z.of_N b) with true by (symmetry; apply Z.leb_le; lia). cbn [andb].
+  destruct (N.leb_spec 1114112 b); [apply Z.ltb_ge|apply Z.ltb_lt]; lia.
+Qed.
+
+(* table side conditions for one field: the resolution is a number, and a type name the source does not know is not one it knows *)
+Definition type_names : list string := ["PRN"; "CPR"; "CSG"; "SNT"; "INT"; "CHA"; "STR"].
+Definition fd_ok (fd:dfield) : bool :=
+  match df_res fd with RBad _ => false | _ => true end &&
+  match df_ty fd with TOther s => negb (existsb (String.eqb s) type_names) | _ => true end.
+
+(* ================= what the two methods return ================= *)
+Definition gsm_post (o':obj) (v:val dob) (a':env dob) : Prop := v = VNone /\ store_rel a' o'.
+Definition single_post (x:obj * Z) (v:val dob) (a':env dob) : Prop := v = PyO.VInt (snd x) /\ store_rel a' (fst x).
+
+(* ================= the conditions on the object under which the source of _set_attribute_single is followed ================= *)
+Definition int_or_absent (o:obj) (k:string) : Prop :=
+  match assoc k (o_attrs o) with None | Some (Types.VInt _) => True | _ => False end.
+Definition str_or_absent (o:obj) (k:string) : Prop :=
+  match assoc k (o_attrs o) with None | Some (Types.VStr _) => True | _ => False end.
+Definition int_or_absent_b (o:obj) (k:string) : bool :=
+  match assoc k (o_attrs o) with None | Some (Types.VInt _) => true | _ => false end.
+Definition str_or_absent_b (o:obj) (k:string) : bool :=
+  match assoc k (o_attrs o) with None | Some (Types.VStr _) => true | _ => false end.
+Definition masks_plain_b (o:obj) : bool :=
+  forallb (fun k => match assoc k (o_attrs o) with Some (Types.VStr _) => false | _ => true end) ["DF394"; "DF395"; "DF396"].
+Lemma int_or_absent_iff o k : int_or_absent_b o k = true <-> int_or_absent o k.
+Proof. unfold int_or_absent_b, int_or_absent. destruct (assoc k (o_attrs o)) as [[| |]|]; split; auto; discriminate. Qed.
+Lemma str_or_absent_iff o k : str_or_absent_b o k = true <-> str_or_absent o k.
+Proof. unfold str_or_absent_b, str_or_absent. destruct (assoc k (o_attrs o)) as [[| |]|]; split; auto; discriminate. Qed.
+Lemma masks_plain_iff o : masks_plain_b o = true -> masks_plain o.
+Proof.
+  unfold masks_plain_b, masks_plain. rewrite forallb_forall. intros H k Hk s E. specialize (H k Hk). rewrite E in H. discriminate.
+Qed.
+
+Section Guard.
+  Variable T : tables.
+  Definition lazy_same_b (ident:string) (o:obj) : bool :=
+    match assoc (substring 0 3 ident) (t_prnsig T), getint o "DF394", getint o "DF395" with
+    | Some (prnmap, sigmap), Ok a, Ok b =>
+        if Nat.eqb (gsm_ncells T prnmap sigmap (negb (o_labelmsm o =? 2)) a b) 0
+        then match getint o "DF396" with Ok _ => true | _ => false end
+        else true
+    | _, _, _ => true
+    end.
+  Lemma lazy_same_iff ident o : lazy_same_b ident o = true -> lazy_same T ident o.
+  Proof.
+    unfold lazy_same_b, lazy_same. destruct (assoc _ _) as [[pm sm]|]; [|auto].
+    destruct (getint o "DF394") as [a| | |]; auto. destruct (getint o "DF395") as [b| | |]; auto.
+    intros H E. rewrite E in H. cbn [Nat.eqb] in H. destruct (getint o "DF396") as [c| | |]; try discriminate. eauto.
+  Qed.
+
+  (* the dynamic side conditions of the tie of _set_attribute_single, as one test on (label, index, object, offset) *)
+  Definition single_pre (ident anam:string) (index:list Z) (s:obj * Z) : bool :=
+    match find_field T anam with
+    | None => true
+    | Some fd =>
+        (match df_ty fd with TSTR => str_or_absent_b (fst s) anam | _ => true end) &&
+        (if String.eqb anam "DF396" then
+           int_or_absent_b (fst s) (t_nsat T) && int_or_absent_b (fst s) (t_nsig T) &&
+           match set_single_gen T (fun x => Ok x) anam index s with
+           | Ok (o2, _) => masks_plain_b o2 && lazy_same_b ident o2
+           | _ => true
+           end
+         else true)
+    end.
+  (* set_single, "not modelled" where the tie does not reach *)
+  Definition set_single_guarded (ident anam:string) (index:list Z) (s:obj * Z) : outcome (obj * Z) :=
+    if single_pre ident anam index s then set_single T ident anam index s
+    else Unmodelled "outside the conditions of the source tie of _set_attribute_single".
+
+  Lemma setattr_payload o k v o' : Message.setattr o k v = Ok o' -> o_payload o' = o_payload o.
+  Proof. unfold Message.setattr. destruct (o_immutable o); [discriminate|]. intro E. inversion E. reflexivity. Qed.
+  Lemma single_store_payload fd anam anami v o o' : single_store fd anam anami v o = Ok o' -> o_payload o' = o_payload o.
+  Proof.
+    unfold single_store. destruct (df_ty fd); try apply setattr_payload.
+    destruct (assoc anam (o_attrs o)) as [[| |old]|]; try discriminate; [destruct v; try discriminate|]; apply setattr_payload.
+  Qed.
+  (* up to the _getsatcellmaps call the payload is not touched *)
+  Lemma set_single_gen_payload anam index o offset o2 off :
+    anam <> "IDF038" -> set_single_gen T (fun x => Ok x) anam index (o, offset) = Ok (o2, off) -> o_payload o2 = o_payload o.
+  Proof.
+    intros NH. unfold set_single_gen. destruct (find_field T anam) as [fd|]; [|discriminate].
+    destruct (single_asiz T anam fd o) as [asiz| | |]; cbn [obind]; try discriminate.
+    destruct (single_value fd asiz index o offset) as [[mv ob]| | |]; cbn [obind fst snd]; try discriminate.
+    destruct (single_store fd anam (render_name anam index) mv o) as [o1| | |] eqn:E1; cbn [obind]; try discriminate.
+    apply single_store_payload in E1.
+    assert (EH : String.eqb anam "IDF038" = false) by (apply String.eqb_neq; exact NH).
+    unfold single_harm. rewrite EH.
+    destruct (single_extras T (fun x => Ok x) anam ob o1) as [o2'| | |] eqn:E2; cbn [obind]; try discriminate.
+    intro E. inversion E; subst. rewrite <- E1. clear E E1.
+    unfold single_extras in E2. destruct (_ || _); [|inversion E2; reflexivity].
+    destruct ob as [b|]; [|discriminate].
+    destruct (String.eqb anam "DF394"); [exact (setattr_payload _ _ _ _ E2)|].
+    destruct (String.eqb anam "DF395"); [exact (setattr_payload _ _ _ _ E2)|].
+    destruct (Message.setattr o1 (t_ncell T) _) as [o'| | |] eqn:E3; cbn [obind] in E2; try discriminate.
+    inversion E2; subst. exact (setattr_payload _ _ _ _ E3).
+  Qed.
+End Guard.
+
+(* ================= rendered names: a label that is a data attribute name stays one ================= *)
+Definition is_digit (c:ascii) : bool := (48 <=? nat_of_ascii c)%nat && (nat_of_ascii c <=? 57)%nat.
+Fixpoint last_digit (s:string) : bool :=
+  match s with EmptyString => false | String c EmptyString => is_digit c | String _ r => last_digit r end.
+Lemma last_digit_app s t : t <> EmptyString -> last_digit (s ++ t) = last_digit t.
+Proof.
+  intro H. induction s as [|c s IH]; [reflexivity|]. cbn [append last_digit]. rewrite IH.
+  destruct (s ++ t)%string eqn:E; [|reflexivity]. destruct s; [cbn in E; congruence|discriminate].
+Qed.
+Fixpoint all_digits (s:string) : bool := match s with EmptyString => true | String c r => is_digit c && all_digits r end.
+Lemma all_digits_last s : s <> EmptyString -> all_digits s = true -> last_digit s = true.
+Proof.
+  induction s as [|c s IH]; [congruence|]. intros _ H. cbn [all_digits] in H. apply andb_true_iff in H. destruct H as [H1 H2].
+  cbn [last_digit]. destruct s; [exact H1|]. apply IH; [discriminate|exact H2].
+Qed.
+Lemma all_digits_uint u : all_digits (DecimalString.NilEmpty.string_of_uint u) = true.
+Proof. induction u; cbn; auto. Qed.
+Lemma all_digits_str_of_N n : all_digits (str_of_N n) = true.
+Proof.
+  unfold str_of_N. destruct (N.to_uint n) eqn:E; try (cbn [DecimalString.NilZero.string_of_uint]; rewrite <- E; apply all_digits_uint || (cbn; apply all_digits_uint)).
+  reflexivity.
+Qed.
+Lemma all_digits_pad k s : all_digits s = true -> all_digits (pad_zeros k s) = true.
+Proof. intro H. induction k as [|k IH]; [exact H|]. cbn [pad_zeros all_digits]. rewrite IH. reflexivity. Qed.
+Lemma last_digit_suffix i : last_digit (idx_suffix i) = true.
+Proof.
+  unfold idx_suffix, dd, fmt_d.
+  assert (NE : pad_zeros (2 - String.length (str_of_N (Z.to_N i))) (str_of_N (Z.to_N i)) <> EmptyString)
+    by (apply pad_zeros_nonempty, str_of_N_nonempty).
+  rewrite last_digit_app by exact NE.
+  apply all_digits_last; [exact NE|]. apply all_digits_pad, all_digits_str_of_N.
+Qed.
+Lemma idx_suffix_nonempty i : idx_suffix i <> EmptyString.
+Proof. unfold idx_suffix. discriminate. Qed.
+Lemma render_name_cases anam index : render_name anam index = anam \/ last_digit (render_name anam index) = true.
+Proof.
+  unfold render_name.
+  assert (G : forall s, (s = anam \/ last_digit s = true) ->
+              fold_left (fun s i => if 0 <? i then s ++ idx_suffix i else s) index s = anam \/
+              last_digit (fold_left (fun s i => if 0 <? i then s ++ idx_suffix i else s) index s) = true).
+  { induction index as [|i r IH]; intros s Q; [exact Q|]. cbn [fold_left]. apply IH.
+    destruct (0 <? i); [|exact Q]. right. rewrite last_digit_app by apply idx_suffix_nonempty. apply last_digit_suffix. }
+  apply G. left. reflexivity.
+Qed.
+Lemma existsb_last_digit n l : forallb (fun x => negb (last_digit x)) l = true -> last_digit n = true -> existsb (String.eqb n) l = false.
+Proof.
+  intros H L. destruct (existsb (String.eqb n) l) eqn:E; [|reflexivity].
+  apply existsb_exists in E. destruct E as (x & I & E). apply String.eqb_eq in E. subst x.
+  rewrite forallb_forall in H. specialize (H n I). rewrite L in H. discriminate.
+Qed.
+(* no fixed attribute and no name bound in the class ends in a digit (checked on the translated class): indexed labels are fine *)
+Lemma name_ok_render rs anam index :
+  forallb (fun x => negb (last_digit x)) (fixed_names ++ rs) = true ->
+  name_ok rs anam = true -> name_ok rs (render_name anam index) = true.
+Proof.
+  intros H N. destruct (render_name_cases anam index) as [->|L]; [exact N|].
+  rewrite forallb_app in H. apply andb_true_iff in H. destruct H as [H1 H2].
+  unfold name_ok. rewrite (existsb_last_digit _ _ H1 L), (existsb_last_digit _ _ H2 L). reflexivity.
+Qed.
+
+(* ================= non-strict agreement; the guarded field step refines set_single ================= *)
+(* as [agree], but nothing is claimed where the model (or the guard) says "not modelled" *)
+Definition agree_ns {A} (p:bytes) (R : A -> val dob -> env dob -> Prop) (m:outcome A) (r:res (val dob) * (env dob * W)) : Prop :=
+  match m with
+  | Ok x => exists v a', r = (ROk v, (a', tt)) /\ R x v a'
+  | Lib e => exists a', r = (RExc (liberr_class e), (a', tt)) /\ lookup dob "_payload" a' = Some (VBytes p)
+  | Foreign k => exists a', r = (RExc (dec_exc_class k), (a', tt)) /\ lookup dob "_payload" a' = Some (VBytes p)
+  | Unmodelled _ => True
+  end.
+Lemma agree_weaken {A} p (R : A -> val dob -> env dob -> Prop) m r : agree p R m r -> agree_ns p R m r.
+Proof. destruct m; cbn [agree agree_ns]; auto. Qed.
+Lemma set_single_guarded_refines T ident anam index s :
+  match set_single_guarded T ident anam index s with
+  | Unmodelled _ => True
+  | other => set_single T ident anam index s = other
+  end.
+Proof.
+  unfold set_single_guarded. destruct (single_pre T ident anam index s); [|exact I].
+  destruct (set_single T ident anam index s); auto.
+Qed.
+Lemma find_field_In T k fd : find_field T k = Some fd -> In fd (t_fields T).
+Proof. unfold find_field. intro H. apply find_some in H. tauto. Qed.
